@@ -132,6 +132,23 @@ def base_lists(fn: ast.AST) -> Set[str]:
     return out
 
 
+def isinstance_arms(node: ast.AST):
+    """for 'if isinstance(x, dict): A else: B' (or the negated spelling with the arms swapped): (A, B); else None"""
+    if not isinstance(node, ast.If):
+        return None
+    t, neg = node.test, False
+    while isinstance(t, ast.UnaryOp) and isinstance(t.op, ast.Not):
+        t, neg = t.operand, not neg
+    cp = match.compare_parts(t)
+    if cp and isinstance(cp[2], ast.Constant) and isinstance(cp[2].value, bool) and isinstance(cp[1], (ast.Is, ast.Eq, ast.IsNot, ast.NotEq)):
+        if (cp[2].value is False) != isinstance(cp[1], (ast.IsNot, ast.NotEq)):
+            neg = not neg
+        t = cp[0]
+    if isinstance(t, ast.Call) and call_name(t) == "isinstance":
+        return (node.orelse, node.body) if neg else (node.body, node.orelse)
+    return None
+
+
 def check_conversion(ctx, fn: ast.AST, where: str) -> None:
     RID = "C20.R9-malformed-weight-is-missing"
     convs = [c for c in source.calls_in(fn, include_nested=False) if call_name(c) == "float" and c.args and any(
@@ -368,10 +385,11 @@ def run(ctx) -> None:
         if not isinstance(lp, ast.For) or not isinstance(lp.target, ast.Name):
             continue
         body = lp.body
-        if len(body) == 1 and isinstance(body[0], ast.If) and isinstance(body[0].test, ast.Call) and call_name(body[0].test) == "isinstance":
+        arms = isinstance_arms(body[0]) if len(body) == 1 else None
+        if arms is not None:
             # the other arm (an entry that is not a dictionary) may only bind a fresh dictionary as well
-            other_ok = all(isinstance(st_, ast.Assign) and fresh_dict(st_.value) for st_ in body[0].orelse)
-            body = body[0].body if other_ok else []
+            other_ok = all(isinstance(st_, ast.Assign) and fresh_dict(st_.value) for st_ in arms[1])
+            body = arms[0] if other_ok else []
         for st in body:
             if isinstance(st, ast.Assign) and len(st.targets) == 1 and isinstance(st.targets[0], ast.Subscript) and isinstance(st.targets[0].slice, ast.Name) \
                     and st.targets[0].slice.id == lp.target.id and fresh_dict(st.value) and canon(st.targets[0].value) in source.src(lp.iter).replace(
@@ -388,8 +406,9 @@ def run(ctx) -> None:
         if _c not in report_conts:
             continue
         inner = lp_.body[0] if len(lp_.body) == 1 and isinstance(lp_.body[0], ast.If) else None
-        if inner is not None and isinstance(inner.test, ast.Call) and call_name(inner.test) == "isinstance":
-            ok_e = bool(inner.orelse) and all(isinstance(st_, ast.Assign) and fresh_dict(st_.value) for st_ in inner.orelse)
+        arms_ = isinstance_arms(inner) if inner is not None else None
+        if arms_ is not None:
+            ok_e = bool(arms_[1]) and all(isinstance(st_, ast.Assign) and fresh_dict(st_.value) for st_ in arms_[1])
             ctx.ob("C20.R9-malformed-weight-is-missing", inner, ok_e,
                    "a status entry that is not a dictionary is replaced by an empty one (it defines no weight)" if ok_e else
                    "a status entry that is not a dictionary ('0:' parses to None, or a bare number) is left in the report: the membership test "
